@@ -123,7 +123,14 @@ def clones_agree(ctx, repo, rule):
             for h in s.handlers:
                 if h.type is not None and A.norm(h.type) == "StopIteration" and any("plan_stack.pop()" in A.norm(x) for x in h.body):
                     blocks.append(h)
-    ok = len(blocks) == 2 and A.norm(ast.Module(body=blocks[0].body, type_ignores=[])) == A.norm(ast.Module(body=blocks[1].body, type_ignores=[]))
+    # one shared block (send and throw in the same try) agrees with itself; several copies must be identical
+    texts = {A.norm(ast.Module(body=b.body, type_ignores=[])) for b in blocks}
+    covers_both = True
+    if len(blocks) == 1:
+        tr = [s for s in A.walk_stmts(f.node.body) if isinstance(s, ast.Try) and blocks[0] in s.handlers][0]
+        tb = A.norm(ast.Module(body=tr.body, type_ignores=[]))
+        covers_both = ".throw(" in tb and ".send(" in tb
+    ok = len(blocks) >= 1 and len(texts) == 1 and covers_both
     ctx.ob(rule, cname(f, None, "the send-branch and throw-branch StopIteration blocks agree"), ok,
            "" if ok else "the two copies of the generator-exhausted bookkeeping diverged (a plan ending while an exception is thrown is handled differently from one ending normally)",
            nontrivial=True, where=where(f, f.node))
